@@ -305,3 +305,32 @@ impl Tables {
         }
     }
 }
+
+/// replace generic type parameters by the types of a monomorphic instance (`MajorMinor<i32>`: T := i32)
+pub fn subst_ty(t: &Ty, m: &BTreeMap<String, Ty>) -> Ty {
+    match t {
+        Ty::Param(p) => m.get(p).cloned().unwrap_or_else(|| t.clone()),
+        Ty::Option(x) => Ty::Option(Box::new(subst_ty(x, m))),
+        Ty::Range(x) => Ty::Range(Box::new(subst_ty(x, m))),
+        Ty::RangeIncl(x) => Ty::RangeIncl(Box::new(subst_ty(x, m))),
+        Ty::Tuple(xs) => Ty::Tuple(xs.iter().map(|x| subst_ty(x, m)).collect()),
+        Ty::Fn(a, r) => Ty::Fn(a.iter().map(|x| subst_ty(x, m)).collect(), Box::new(subst_ty(r, m))),
+        _ => t.clone(),
+    }
+}
+
+/// a Coq identifier from a Rust type name (`MajorMinor<i32>` -> `MajorMinor_i32`)
+pub fn sanitize(s: &str) -> String {
+    let mut out = String::new();
+    for c in s.chars() {
+        if c.is_alphanumeric() || c == '_' {
+            out.push(c);
+        } else if !out.ends_with('_') {
+            out.push('_');
+        }
+    }
+    while out.ends_with('_') {
+        out.pop();
+    }
+    out
+}
